@@ -148,10 +148,14 @@ reg("C02", harness="c02_inflate", level="exploration", deadline=(400, 2400), ext
                "(depth-15 chains, 13-15-bit lit/len and 11-15-bit distance codes on the used symbols, single-code and empty alphabets, HLIT/HDIST "
                "at maximum, run-length coded headers, hand-made HCLEN=5); >64 KiB outputs with distance-32768 matches; plus zlib-made streams "
                "(4 levels x 5 strategies x windowBits x memLevel). Each x up to 7 wrapper modes x {stateless, isal_inflate} x kernels "
-               "{base,_01,_04} x 4 trailing-junk sizes; output, final state, status, reported input position and state.crc are compared with the reference.",
+               "{base,_01,_04} x 4 trailing-junk sizes; output, final state, status, reported input position and state.crc are compared with the reference. "
+               "Window-edge part: every small token stream is placed behind a stored filler so that EVERY one of its output positions coincides "
+               "in turn with isal_inflate's 65536-byte internal window edge and with the end of a large first caller buffer (direct-mode decode), "
+               "with and without 5000 trailing bytes (multi-symbol lookup tables), on 3 kernels.",
     level_note="streams outside the enumerated grammar bound are not covered; trusted: ref/ref_gen.h generator + ref/ref_inflate.c, cross-checked "
                "against each other and zlib on every stream (gate).",
-    runs={"quick": [dict(flavour="sim")], "thorough": [dict(flavour="sim"), dict(flavour="h8k"), dict(flavour="lht")]},
+    runs={"quick": [dict(flavour="sim", part="streams"), dict(flavour="sim", part="edge")],
+          "thorough": [dict(flavour="sim", part="streams"), dict(flavour="sim", part="edge"), dict(flavour="h8k", part="streams"), dict(flavour="lht", part="streams"), dict(flavour="lht", part="edge")]},
     rule="case = (stream, wrapper mode, header variant, junk length, cpu level, api); distinct_nontrivial = distinct stream bodies (hash); "
          "evaluations = decode calls compared with the reference.")
 
